@@ -97,6 +97,8 @@ pub struct Gen<'a> {
     self_calls_left: u32,
     budget: i32,
     allow_return: bool,
+    /// inside an inline-macro argument (assert!): no loops there, see corpus/C01/loop_in_macro.cairo
+    in_macro: bool,
 }
 
 const SMALL_ITYS: [Ity; 10] = ITYS;
@@ -171,6 +173,7 @@ impl<'a> Gen<'a> {
             self_calls_left: 0,
             budget: 0,
             allow_return: true,
+            in_macro: false,
         }
     }
 
@@ -221,12 +224,17 @@ impl<'a> Gen<'a> {
         self.scalar_ty()
     }
 
+    fn plain_ty(&mut self, depth: u32) -> Ty {
+        let t = self.data_ty(depth);
+        if contains_snap(&t) { self.scalar_ty() } else { t }
+    }
+
     fn declare_types(&mut self) {
         if self.feat.tuples {
             let n = self.rng.below(3) as usize;
             for _ in 0..n {
                 let m = 1 + self.rng.below(3) as usize;
-                let ms = (0..m).map(|_| self.data_ty(1)).collect();
+                let ms = (0..m).map(|_| self.plain_ty(1)).collect();
                 self.prog.structs.push(ms);
             }
         }
@@ -234,7 +242,7 @@ impl<'a> Gen<'a> {
             let n = self.rng.below(3) as usize;
             for _ in 0..n {
                 let m = 1 + self.rng.below(4) as usize;
-                let vs = (0..m).map(|_| if self.chance(30) { Ty::unit() } else { self.data_ty(1) }).collect();
+                let vs = (0..m).map(|_| if self.chance(30) { Ty::unit() } else { self.plain_ty(1) }).collect();
                 self.prog.enums.push(vs);
             }
         }
@@ -257,7 +265,7 @@ impl<'a> Gen<'a> {
             Ty::Enum(_) | Ty::Opt(_) | Ty::Res(..) => {
                 let vs = self.prog.variants(ty);
                 let i = self.rng.below(vs.len() as u64) as usize;
-                let p = self.leaf(&vs[i]);
+                let p = if matches!(ty, Ty::Opt(_)) && i == 1 { unit_expr() } else { self.leaf(&vs[i]) };
                 Expr::Enum(ty.clone(), i, Box::new(p))
             }
             Ty::Snap(t) => Expr::Snap(Box::new(self.leaf(t))),
@@ -267,7 +275,7 @@ impl<'a> Gen<'a> {
     fn leaf(&mut self, ty: &Ty) -> Expr {
         self.stats.nodes += 1;
         let vs = self.vars_of(ty);
-        if !vs.is_empty() && self.chance(65) {
+        if !vs.is_empty() && self.chance(85) {
             self.stats.hit("var");
             return Expr::Var(*self.rng.pick(&vs));
         }
@@ -321,7 +329,7 @@ impl<'a> Gen<'a> {
             let dflt = self.block(ty, d);
             return Expr::MatchInt(st, Box::new(sc), arms, Box::new(dflt));
         }
-        if k < 40 && self.feat.loops && self.loops.len() < 2 && !ty.is_unit() {
+        if k < 40 && self.feat.loops && self.loops.len() < 2 && !ty.is_unit() && !self.in_macro {
             return self.loop_value(ty, d);
         }
         if k < 43 && self.feat.enums {
@@ -394,7 +402,7 @@ impl<'a> Gen<'a> {
                 self.stats.hit("enum_ctor");
                 let vs = self.prog.variants(ty);
                 let i = self.rng.below(vs.len() as u64) as usize;
-                let p = self.expr(&vs[i], d);
+                let p = if matches!(ty, Ty::Opt(_)) && i == 1 { unit_expr() } else { self.expr(&vs[i], d) };
                 Expr::Enum(ty.clone(), i, Box::new(p))
             }
             Ty::Snap(t) => {
@@ -868,14 +876,18 @@ impl<'a> Gen<'a> {
             let b = if self.chance(50) { self.unit_block(d, true) } else { unit_expr() };
             return Some(Stmt::Expr(Expr::If(Box::new(c), Box::new(a), Box::new(b))));
         }
-        if k < 73 && self.feat.loops && self.loops.len() < 2 && d > 0 {
+        if k < 73 && self.feat.loops && self.loops.len() < 2 && d > 0 && !self.in_macro {
             let e = self.loop_value(&Ty::unit(), d - 1);
             return Some(Stmt::Expr(e));
         }
         if k < 79 {
             self.stats.hit("assert");
+            let short = self.chance(60);
+            let saved = self.in_macro;
+            self.in_macro = saved || !short;
             let c = self.expr(&Ty::Bool, d.min(2));
-            let m = if self.chance(60) {
+            self.in_macro = saved;
+            let m = if short {
                 PanicMsg::Short(format!("a{}", self.rng.below(1000)))
             } else {
                 PanicMsg::Bytes(format!("assert failed {}", self.rng.below(1000)))
@@ -972,7 +984,7 @@ impl<'a> Gen<'a> {
         let mut stmts = vec![];
         let n = if d == 0 { 0 } else { self.rng.below(3) };
         for _ in 0..n {
-            if self.chance(12) && self.feat.loops && self.loops.len() < 2 && d > 0 {
+            if self.chance(12) && self.feat.loops && self.loops.len() < 2 && d > 0 && !self.in_macro {
                 stmts.extend(self.while_stmt(d - 1));
             } else if self.chance(10) && self.feat.arrays {
                 stmts.extend(self.array_decl(d.saturating_sub(1)));
@@ -1043,7 +1055,10 @@ impl<'a> Gen<'a> {
         let body = if recursive {
             // base case first: the depth parameter is >= 1 in the rest of the body
             let dv = params[0].name;
+            let saved = self.self_calls_left;
+            self.self_calls_left = 0;
             let base = self.expr(&ret, 1);
+            self.self_calls_left = saved;
             let test = Expr::If(
                 Box::new(Expr::Bin(
                     Binop::Eq,
@@ -1130,7 +1145,10 @@ fn cost_expr(e: &Expr, fc: &[f64], me: usize, self_sites: &mut u32) -> f64 {
         Expr::Bin(_, _, a, b) | Expr::AndAlso(a, b) | Expr::OrElse(a, b) => c(a) + c(b),
         Expr::Tup(_, es) => es.iter().map(|e| c(e)).sum(),
         Expr::Match(_, a, arms) => c(a) + arms.iter().map(|(_, b)| c(b)).fold(0.0, f64::max),
-        Expr::MatchInt(_, a, arms, d) => c(a) + arms.iter().map(|b| c(b)).fold(c(d), f64::max),
+        Expr::MatchInt(_, a, arms, d) => {
+            let dc = c(d);
+            c(a) + arms.iter().map(|b| c(b)).fold(dc, f64::max)
+        }
         Expr::If(x, a, b) => c(x) + c(a).max(c(b)),
         Expr::Block(stmts, tail) => {
             let mut t = 0.0;
